@@ -177,7 +177,20 @@ def build_jobs(rng, per_codemod: int, variants_per_seed: int, only=None, include
                     subs.append({"files": {s["filename"]: text}, "meta": {s["filename"]: {"variant": vname, "seed_filename": s["filename"]}},
                                  "tool": s["tool"], "results": s["results"]})
         if batch_files:
-            subs.append({"files": batch_files, "meta": batch_meta, "tool": None, "results": None})
+            # legacy-encoded twins of a few batch files: a non-ASCII comment, a PEP 263 cookie, bytes in that codec
+            encodings = {}
+            for name in list(batch_files)[:2]:
+                codec, cookie, sample = rng.choice([("euc_jp", "euc-jp", "\u65e5\u672c\u8a9e"), ("shift_jis", "shift_jis", "\u30c6\u30b9\u30c8"),
+                                                    ("cp1252", "cp1252", "caf\u00e9 \u20ac"), ("latin-1", "latin-1", "na\u00efve"), ("gbk", "gbk", "\u4e2d\u6587")])
+                head, body = _split_future(batch_files[name] if batch_files[name].endswith("\n") else batch_files[name] + "\n")
+                text = f"# -*- coding: {cookie} -*-\n# {sample}\n" + head + body
+                if parses(text):
+                    en = f"enc_{name}"
+                    batch_files[en] = text
+                    batch_meta[en] = {"variant": f"encoded_cookie:{cookie}", "seed_filename": "code.py"}
+                    encodings[en] = codec
+            subs.append({"files": batch_files, "meta": batch_meta, "tool": None, "results": None, "encodings": encodings,
+                         "manifest": rng.choice(["requirements.txt", "setup.py"])})
         if subs:
             jobs.append({"codemod": cm, "subprojects": subs})
     return jobs
